@@ -1,5 +1,107 @@
-(* C10 - placeholder while the correspondence is brought up *)
-From LibTw2 Require Import Base.Res Model.Snap.
-Example C10_nonvacuous : crc raw_empty = 0.
-Proof. reflexivity. Qed.
+(* C10 - a snapshot survives serialisation, including UUID-typed items.
+   Only the property theorems (about Model/Snap.v), closed by lemmas of Proofs/Snap*.v.
+   `build ops builder_new` is the Builder after any list of add_item calls; ops_ok: ordinal types
+   in 1..0x3fff (the code asserts it), ids u16, data i32, UUIDs 128 bits.  `like S S'`: S' holds the
+   same items and the same UUID registry as S. *)
+From LibTw2 Require Import Base.Res Model.Varint Model.Packer Model.Snap
+  Proofs.SnapBase Proofs.SnapRep Proofs.SnapDelta Proofs.SnapTotal Proofs.SnapReg Proofs.SnapObs
+  Proofs.SnapBuilder Proofs.SnapBuilder2 Proofs.SnapBuilder3 Proofs.SnapC10.
+From Coq Require Import ZArith List Lia.
+Import ListNotations.
+Open Scope Z_scope.
+
+(* every builder-made snapshot, written as integers or as bytes and read back, gives - without a
+   warning - a snapshot with the same enumeration, the same lookups by (ordinal or UUID) type and
+   id, and the same checksum *)
+Theorem C10_observational : forall ops, ops_ok ops ->
+  let S := b_snap (build ops builder_new) in
+  exists l bs S',
+    raw_write_to_ints (sn_raw S) (length l) = Ok l /\ raw_write_bytes (sn_raw S) (length bs) = Ok bs
+    /\ snap_read_from_ints l = (Ok S', []) /\ snap_read_bytes bs = (Ok S', [])
+    /\ (forall E, @snap_items E S' = @snap_items E S)
+    /\ (forall E t id, @snap_item E S' t id = @snap_item E S t id)
+    /\ crc (sn_raw S') = crc (sn_raw S)
+    /\ sn_ext S' = sn_ext S.
+Proof.
+  intros ops Hok S. destruct (built_roundtrip ops Hok) as (l & bs & S' & El & Eb & Hlen & E1 & E2 & HL). fold S in El, HL.
+  destruct (like_observables S S' HL) as (O1 & O2 & O3). exists l, bs, S'.
+  unfold MAX_SNAPSHOT_SIZE in Hlen.
+  split; [|split; [|split; [exact E1|split; [exact E2|split; [exact O1|split; [exact O2|split; [exact O3|apply HL]]]]]]].
+  - unfold raw_write_to_ints. rewrite El, Nat.ltb_irrefl.
+    replace (MAX_SNAPSHOT_SIZE <? 4 * Z.of_nat (length l)) with false by (symmetry; apply Z.ltb_ge; unfold MAX_SNAPSHOT_SIZE; lia). reflexivity.
+  - unfold raw_write_bytes. rewrite El, Eb, Nat.ltb_irrefl.
+    replace (MAX_SNAPSHOT_SIZE <? 4 * Z.of_nat (length l)) with false by (symmetry; apply Z.ltb_ge; unfold MAX_SNAPSHOT_SIZE; lia). reflexivity.
+Qed.
+
+(* the same for the snapshot obtained by applying a delta between two builder-made snapshots
+   (outside K09: no item keeps its key and changes its length) *)
+Theorem C10_after_delta : forall opsA opsB, ops_ok opsA -> ops_ok opsB ->
+  let A := b_snap (build opsA builder_new) in
+  let B := b_snap (build opsB builder_new) in
+  k09 (sn_raw A) (sn_raw B) = false ->
+  exists d S', create_raw (sn_raw A) (sn_raw B) = Ok d /\ snap_read_with_delta A d = (Ok S', [])
+    /\ (forall E, @snap_items E S' = @snap_items E B)
+    /\ (forall E t id, @snap_item E S' t id = @snap_item E B t id)
+    /\ crc (sn_raw S') = crc (sn_raw B)
+    /\ like B S'.
+Proof.
+  intros opsA opsB HA HB A B Hk. destruct (built_after_delta opsA opsB HA HB Hk) as (d & S' & E1 & E2 & HL).
+  destruct (like_observables _ S' HL) as (O1 & O2 & O3). exists d, S'.
+  split; [exact E1|]. split; [exact E2|]. split; [exact O1|]. split; [exact O2|]. split; [exact O3|exact HL].
+Qed.
+
+(* a copy (read from the wire, or made by a delta) recycles into a builder that knows exactly the
+   UUID types of the original with their numbers, continues the numbering, and gives a new UUID
+   type a number no type had - and the call succeeds when the number space and the limits allow *)
+Theorem C10_recycle : forall ops S', ops_ok ops ->
+  let b := build ops builder_new in
+  like (b_snap b) S' ->
+  exists b', snap_recycle S' = Ok b' /\ b_next b' = b_next b /\ sn_ext (b_snap b') = sn_ext (b_snap b)
+    /\ forall u id data, op_ok (Uuid u) id data ->
+       let r := builder_add b' (Uuid u) id data in
+       (forall u' t, aget u' (sn_ext (b_snap b)) = Some t -> aget u' (sn_ext (b_snap (fst r))) = Some t)
+       /\ fine (snd r)
+       /\ (aget u (sn_ext (b_snap b)) = None ->
+            (forall u', aget u' (sn_ext (b_snap b)) <> Some (b_next b))
+            /\ (snd r = Ok tt -> aget u (sn_ext (b_snap (fst r))) = Some (b_next b))
+            /\ (b_next b < 32768 ->
+                Z.of_nat (length (sn_ext (b_snap b))) + 2 <= 1024 ->
+                ser_size (Z.of_nat (length (sn_ext (b_snap b))) + 2)
+                         (4 * Z.of_nat (length (sn_ext (b_snap b))) + 4 + Z.of_nat (length data)) <= 65536 ->
+                snd r = Ok tt)).
+Proof.
+  intros ops S' Hok b HL. destruct (built_recycle ops S' Hok HL) as (b' & E & G & Hn & He & Hadd).
+  exists b'. split; [exact E|]. split; [exact Hn|]. split; [exact He|]. intros u id data Hop r.
+  destruct (Hadd u id data Hop) as (_ & H2 & H3). split; [exact H2|]. split; [|exact H3].
+  apply (builder_add_bgood b' (Uuid u) id data G Hop).
+Qed.
+
+(* concrete values: two UUID types interleaved with ordinals (the witness of defect #8) *)
+Definition exOps : list (tyid * Z * list Z) :=
+  [(Uuid 35243352628221405165285609929621807691, 1337, [4660; 1450741931]);
+   (Ordinal 5, 1, [9; 9]);
+   (Uuid 340282366920938463463374607431768211455, 7, [3]);
+   (Ordinal 16383, 65535, [])].
+
+Example C10_nonvacuous :
+  forallb (fun o => match fst (fst o) with
+                    | Ordinal t => (0 <? t) && (t <? 16384) | Uuid u => uuid_okb u end
+                    && is_u16 (snd (fst o)) && forallb is_i32 (snd o)) exOps = true
+  /\ let S := b_snap (build exOps builder_new) in
+     sn_ext S = [(35243352628221405165285609929621807691, 16384); (340282366920938463463374607431768211455, 16385)]
+     /\ @snap_item unit S (Uuid 340282366920938463463374607431768211455) 7 = Ok (Some [3])
+     /\ match snap_ints (sn_raw S) with
+        | Ok l => match snap_read_from_ints l with
+                  | (Ok S', []) => sn_ext S' = sn_ext S
+                                   /\ @snap_item unit S' (Uuid 340282366920938463463374607431768211455) 7 = Ok (Some [3])
+                                   /\ match snap_recycle S' with Ok b' => b_next b' = 16386 | _ => False end
+                  | _ => False
+                  end
+        | _ => False
+        end.
+Proof. vm_compute. repeat split. Qed.
+
+Print Assumptions C10_observational.
+Print Assumptions C10_after_delta.
+Print Assumptions C10_recycle.
 Print Assumptions C10_nonvacuous.
